@@ -3,8 +3,13 @@
 #![cfg(kani)]
 
 pub mod common;
+pub mod ref_table;
+mod c01;
 pub mod c11;
-mod c13;
+mod c12;
+pub mod c13;
 pub mod c14;
+mod c15;
+mod c16;
 mod c17;
 mod c18;
